@@ -1286,6 +1286,17 @@ def canon(expr, params=(), rename=None, consts=None):
                     return ('call', ('fn', 'np.' + e.func.attr), tuple(args), kws)
             if fn in ('dict', 'list', 'tuple') and not e.args and not e.keywords:
                 return (fn,)
+            if fn == 'all' and len(e.args) == 1 and not e.keywords and isinstance(e.args[0], (ast.ListComp, ast.GeneratorExp)):
+                # all(c for ..) is not any(not c for ..)
+                inner = e.args[0]
+                neg = ast.GeneratorExp(elt=ast.UnaryOp(op=ast.Not(), operand=inner.elt), generators=inner.generators)
+                return c(ast.UnaryOp(op=ast.Not(), operand=ast.Call(func=ast.Name(id='any', ctx=ast.Load()), args=[neg], keywords=[])))
+            if fn == 'any' and len(e.args) == 1 and not e.keywords and isinstance(e.args[0], ast.ListComp):
+                return c(ast.Call(func=e.func, args=[ast.GeneratorExp(elt=e.args[0].elt, generators=e.args[0].generators)], keywords=[]))
+            if fn in ('list', 'set') and len(e.args) == 1 and not e.keywords and isinstance(e.args[0], (ast.ListComp, ast.GeneratorExp)):
+                # list(<comprehension>) is the list comprehension, set(<comprehension>) the set comprehension
+                inner = e.args[0]
+                return c((ast.ListComp if fn == 'list' else ast.SetComp)(elt=inner.elt, generators=inner.generators))
             if fn == 'list' and len(e.args) == 1 and not e.keywords and isinstance(e.args[0], ast.Call) and dotted(e.args[0].func) == 'reversed' \
                     and len(e.args[0].args) == 1:
                 # list(reversed(x)) is x[::-1] for the lists it is used on
@@ -1343,6 +1354,10 @@ def canon(expr, params=(), rename=None, consts=None):
                     op, l, r = 'NotEq', r, ('const', '0')
                 elif (op == 'Lt' and is_len(l) and r == ('const', '1')) or (op == 'LtE' and is_len(l) and r == ('const', '0')):
                     op, r = 'Eq', ('const', '0')
+                if op in ('Eq', 'NotEq') and (l == ('const', 'None') or r == ('const', 'None')):
+                    op = 'Is' if op == 'Eq' else 'IsNot'          # `x == None` is written `x is None` (same for everything but exotic __eq__)
+                    if l == ('const', 'None'):
+                        l, r = r, l
                 if op in ('Eq', 'NotEq'):
                     l, r = sorted([l, r], key=repr)
                 return ('cmp', (op,), l, r)
